@@ -217,6 +217,21 @@ def check_instance(ck, F, table, N, basis_name, basis_codes, R, label, normalize
             sat = all(any(assign[abs(l)] == (l > 0) for l in cl) for cl in only)
             if sat:
                 problems.append(f'{what}: {k} choices true satisfies the structural clauses (exactly-one constraint missing)')
+    if n_struct == 0:
+        # no circuit of this shape exists at all: the clause set must be unsatisfiable
+        assign = {}
+        refuted = not propagate(clauses, assign)
+        if not refuted:
+            free = sorted({abs(l) for cl in clauses for l in cl} - set(assign))
+            if len(free) <= 16:
+                refuted = True
+                for bits in itertools.product((False, True), repeat=len(free)):
+                    full = dict(assign, **dict(zip(free, bits)))
+                    if all(any(full.get(abs(l)) == (l > 0) for l in cl) for cl in clauses):
+                        refuted = False
+                        break
+        if not refuted:
+            problems.append(f'no circuit with {n} input(s) and {N} gate(s) exists (a gate needs two distinct predecessors, an output needs a gate), yet the clause set is satisfiable: the search would return a malformed answer instead of NoSolutionError')
     ck.check(not problems, R, mod, fn, f'{label}: clause templates accept exactly the circuits of the specification ({n_struct} structures, {len(clauses)} clauses)',
              '; '.join(problems[:3]), construct=label)
     return inst
@@ -285,7 +300,10 @@ def run(ck: Checker):
     # custom basis given as a list of operations
     custom = [opn.members['and_'], opn.members['gt_']]
     check_instance(ck, F, [[Fv, Fv, T, Fv]], 1, custom, {code['and_'], code['gt_']}, 'C06.ENC', 'encoding n=2 gates=1 basis=[and_, gt_] model=0010')
-    ck.floor('C06.ENC', 10)
+    # degenerate sizes: no gate to take the output at / no pair of predecessors
+    check_instance(ck, F, [[Fv, Fv, Fv, T]], 0, 'FULL', codes['FULL'], 'C06.ENC', 'encoding n=2 gates=0 basis=FULL model=0001 (unsatisfiable by shape)')
+    check_instance(ck, F, [[Fv, T]], 1, 'FULL', codes['FULL'], 'C06.ENC', 'encoding n=1 gates=1 basis=FULL model=01 (unsatisfiable by shape)')
+    ck.floor('C06.ENC', 12)
 
     # ---- FIX ----
     tbl = [[Fv, T, T, Fv]]
@@ -305,6 +323,14 @@ def run(ck: Checker):
     ]
     for lab, con, spec in fixes:
         check_instance(ck, F, tbl, 2, 'FULL', codes['FULL'], 'C06.FIX', f'{lab} on n=2 gates=2', constrain=con, extra_spec=spec)
+    # a fixed type does not lift the basis restriction or the normalisation requirement
+    XOR, NAND = F.types['XOR'], F.types['NAND']
+    check_instance(ck, F, tbl, 2, 'AIG', codes['AIG'], 'C06.FIX', 'fix_gate(3, first=0, type=XOR) in basis AIG on n=2 gates=2',
+                   constrain=lambda i: F.call(i, 'fix_gate', 3, first_predecessor=0, gate_type=XOR), extra_spec=lambda p, t, o: 0 in p[3] and t[3] == '0110')
+    check_instance(ck, F, tbl, 2, 'AIG', codes['AIG'], 'C06.FIX', 'fix_gate(2, first=0, type=AND) in basis AIG on n=2 gates=2',
+                   constrain=lambda i: F.call(i, 'fix_gate', 2, first_predecessor=0, gate_type=AND), extra_spec=lambda p, t, o: 0 in p[2] and t[2] == '0001')
+    check_instance(ck, F, [[T, T, T, Fv]], 1, 'FULL', codes['FULL'], 'C06.FIX', 'fix_gate(2, first=0, type=NAND) with need_normalized on n=2 gates=1', normalized=True,
+                   constrain=lambda i: F.call(i, 'fix_gate', 2, first_predecessor=0, gate_type=NAND), extra_spec=lambda p, t, o: 0 in p[2] and t[2] == '1110')
     refusals = [
         ('fix_gate(9, first_predecessor=0)', lambda i: F.call(i, 'fix_gate', 9, first_predecessor=0), 'GateIsAbsentError'),
         ('fix_gate(1, first_predecessor=0)', lambda i: F.call(i, 'fix_gate', 1, first_predecessor=0), 'GateIsAbsentError'),
@@ -334,47 +360,59 @@ def run(ck: Checker):
                  f'first statement is `{norm(b[0]) if b else None}`', construct=f'{fnn}: _need_check_db = False first')
     fc = m.func('CircuitFinderSat.find_circuit')
     ck.check('if circuit_db is not None and self._need_check_db:' in norm(fc), 'C06.FIX', m, fc, 'the database answer is used only when no constraint was imposed', 'guard changed', construct='find_circuit database guard')
-    ck.floor('C06.FIX', 20)
+    ck.floor('C06.FIX', 23)
 
     # ---- DEC ----
-    probs = []
-    n_dec = 0
-    table = [[Fv, T, T, Fv]]
-    inst = F.new(table, 2, 'FULL')
-    F.call(inst, 'get_cnf')
-    ids = inst._d['_vpool'].ids
-    n, N = 2, 2
-    for preds, tts, outs in itertools.islice(enumerate_structures(n, N, 1), 0, None, 37):
-        n_dec += 1
-        x = natural_values(n, N, preds, tts)
-        model = []
-        for name, vid in ids.items():
-            parts = name.split('_')
-            if parts[0] == 's':
-                v = preds[int(parts[1])] == (int(parts[2]), int(parts[3]))
-            elif parts[0] == 'g':
-                v = outs[int(parts[1])] == int(parts[2])
-            elif parts[0] == 'f':
-                v = tts[int(parts[1])][2 * int(parts[2]) + int(parts[3])] == '1'
-            else:
-                v = x[int(parts[1])][int(parts[2])]
-            model.append(vid if v else -vid)
-        try:
-            c = F.call(inst, '_get_circuit_by_model', model)
-        except InterpRaise as e:
-            probs.append(f'{preds}/{tts}: decoder raises {e.exc_name}')
-            continue
-        lab = lambda g: str(g) if g < n else f's{g}'  # noqa: E731
-        want = {str(i): ('INPUT', ()) for i in range(n)}
-        for g in range(n, n + N):
-            want[f's{g}'] = (semantics.CODE_TO_NAME[tts[g]], (lab(preds[g][0]), lab(preds[g][1])))
-        got = {l: (g.gate_type.var, tuple(g.operands)) for l, g in c._gates.items()}
-        if got != want or c._outputs != [lab(o) for o in outs] or c._inputs != [str(i) for i in range(n)]:
-            probs.append(f'{preds}/{tts}/{outs}: decoded {got} outputs {c._outputs}')
-        if len(probs) > 3:
-            break
-    ck.check(not probs, 'C06.DEC', m, m.func('CircuitFinderSat._get_circuit_by_model'), f'decoder rebuilds the encoded circuit ({n_dec} models over all 16 gate tables and all predecessor pairs)',
-             '; '.join(probs[:3]), construct='_get_circuit_by_model')
+    dec_rule(ck, F)
     # exactly the requested number of gates, inputs named by index
     ck.assume('the SAT solver is sound and complete; time-limit handling and the database shortcut content are not decided')
     ck.assume('the clause generator is uniform in gate index and truth-table position, so instances with <= 2 inputs and <= 2 gates exhibit every clause template (for larger sizes only the loop domains are relied on)')
+
+
+def dec_rule(ck: Checker, F, R='C06.DEC'):
+    """The model decoder, folded over models of every structure: one output, and two outputs
+    (same gate twice, later gate listed first, an output on each gate)."""
+    m = F.mod
+    T, Fv = True, False
+    n, N = 2, 2
+    for n_out, step in ((1, 37), (2, 53)):
+        probs = []
+        n_dec = 0
+        table = [[Fv, T, T, Fv]] * n_out
+        inst = F.new(table, N, 'FULL')
+        F.call(inst, 'get_cnf')
+        ids = inst._d['_vpool'].ids
+        for preds, tts, outs in itertools.islice(enumerate_structures(n, N, n_out), 0, None, step):
+            n_dec += 1
+            x = natural_values(n, N, preds, tts)
+            model = []
+            for name, vid in ids.items():
+                parts = name.split('_')
+                if parts[0] == 's':
+                    v = preds[int(parts[1])] == (int(parts[2]), int(parts[3]))
+                elif parts[0] == 'g':
+                    v = outs[int(parts[1])] == int(parts[2])
+                elif parts[0] == 'f':
+                    v = tts[int(parts[1])][2 * int(parts[2]) + int(parts[3])] == '1'
+                else:
+                    v = x[int(parts[1])][int(parts[2])]
+                model.append(vid if v else -vid)
+            try:
+                c = F.call(inst, '_get_circuit_by_model', model)
+            except InterpRaise as e:
+                probs.append(f'{preds}/{tts}: decoder raises {e.exc_name}')
+                continue
+            lab = lambda g: str(g) if g < n else f's{g}'  # noqa: E731
+            want = {str(i): ('INPUT', ()) for i in range(n)}
+            for g in range(n, n + N):
+                want[f's{g}'] = (semantics.CODE_TO_NAME[tts[g]], (lab(preds[g][0]), lab(preds[g][1])))
+            got = {l: (g.gate_type.var, tuple(g.operands)) for l, g in c._gates.items()}
+            if got != want or c._outputs != [lab(o) for o in outs] or c._inputs != [str(i) for i in range(n)]:
+                probs.append(f'{preds}/{tts}/outputs at gates {outs}: decoded {got} outputs {c._outputs}')
+            if len(probs) > 3:
+                break
+        seen_outs = {tuple(o) for _, _, o in itertools.islice(enumerate_structures(n, N, n_out), 0, None, step)}
+        ck.need(n_out == 1 or {(2, 2), (3, 2), (2, 3), (3, 3)} <= seen_outs, 'C06.DEC sampling misses an output placement (checker defect)')
+        ck.check(not probs, R, m, m.func('CircuitFinderSat._get_circuit_by_model'),
+                 f'decoder rebuilds the encoded circuit with {n_out} output(s): gates, operand order, types, and the k-th output at the gate the model chose for the k-th table row ({n_dec} models over all 16 gate tables, all predecessor pairs, all output placements)',
+                 '; '.join(probs[:3]), construct=f'_get_circuit_by_model ({n_out} output{"s" if n_out > 1 else ""})')
